@@ -162,6 +162,9 @@ def run_reader(target, cfg, noise, suffix, sent, spec, ctx, case) -> bool:
     return left_hunt
 
 
+_protos = 0
+
+
 def run_protocol(pclass_name, cfg, noise, suffix, sent_payloads, spec, ctx, case) -> bool:
     from han import meter_connection
 
@@ -172,6 +175,16 @@ def run_protocol(pclass_name, cfg, noise, suffix, sent_payloads, spec, ctx, case
     cands = [hdlc_mon.new_reader(cfg), p1_mon.new_reader()]
     proto = getattr(meter_connection, pclass_name)(q, cands)
     raised = False
+    global _protos
+    _protos += 1
+    if _protos % 5 == 0:
+        # the application gave up waiting for the end of the connection (asyncio.wait_for(protocol.done, t) timed out: the awaitable it
+        # was given is cancelled) while the connection itself is still up and delivering
+        try:
+            proto.done.cancel()
+            ctx.count("protocols_whose_done_awaitable_was_cancelled_by_the_application")
+        except Exception:
+            pass
     # the wall clock the module sees is frozen at one of several calendar dates (month / year ends, leap day, DST switches)
     class _Frozen:
         vtime = 0.0
@@ -188,7 +201,7 @@ def run_protocol(pclass_name, cfg, noise, suffix, sent_payloads, spec, ctx, case
             except steps.CpuBudgetExceeded:
                 ctx.violation(f"C14:{pclass_name}.data_received:did-not-return", f"data_received() of a {len(ch)}-octet chunk used more than {2 * steps.read_budget(len(ch)):.1f} s of CPU time without returning", case)
                 return True
-            except Exception as ex:
+            except (Exception, asyncio.CancelledError) as ex:
                 record(ctx, f"{pclass_name}.data_received", ex, case)
                 raised = True
             finally:
